@@ -66,3 +66,8 @@ def ref_contingency(plan, except_plan, else_plan, final_plan, pause_for_debug, a
         if not closed and final_plan:
             yield from final_plan()
     return ret
+
+
+def ref_raise_now(exc):
+    raise exc
+    yield
